@@ -99,4 +99,6 @@ def KF_C02_joinlink_then_join_on_key(div):
     k = ops.index(('AddLink', 'JoinLink'))
     if not any(op == 'AddJoin' for op, _ in ops[k + 1:]):
         return False
-    return div.component.startswith('restored/groups/') or div.component.startswith('restored/data/')
+    # only what the replaced join explains: masks of groups and values read through links/joins - never styles, units, ...
+    c = div.component
+    return (c.startswith('restored/groups/') and '/masks/' in c) or (c.startswith('restored/data/') and '/linked/' in c)
